@@ -70,22 +70,39 @@ def main():
         for k, (cs, rs) in enumerate(vb):
             back = "".join(("3" if is_free(c) else "0") if st in "03" else st for st, c in zip(cs, P["cols"]))
             s += ["BOPT h1 %s %s" % (cs, rs), "BOPT h1 %s %s" % (back, rs)]
+        # histories: (h2) the same round trip after a non-last column / row was deleted (name tables and indices no longer line up),
+        # (h3) solve, load a DIFFERENT basis without solving again, write the problem's own basis: the file must hold the loaded one
+        hist = None
+        if n >= 2:
+            j = rng.randrange(n - 1)
+            i2 = rng.randrange(m - 1) if (m >= 2 and rng.random() < 0.5) else None
+            P2 = dict(P, cols=[c for k, c in enumerate(P["cols"]) if k != j])
+            P2["rows"] = [(r[0], r[1], r[2], r[3], [e for e in r[4] if e[0] != P["cols"][j][0]]) for k, r in enumerate(P["rows"]) if k != i2]
+            b2 = all_bases(P2, rng, 24)
+            s += [load_block(2, P), "EDIT h2 delcol %d" % j] + (["EDIT h2 delrow %d" % i2] if i2 is not None else [])
+            for k, (cs, rs) in enumerate(b2):
+                s += ["WRITEBASIS h2 e%d.bas %s %s" % (k, cs, rs), "READBASIS h2 e%d.bas" % k]
+            lb = vb[:6]
+            s += [load_block(3, P), "OPT h3 PRIMAL", "GETBASIS h3"]
+            for k, (cs, rs) in enumerate(lb):
+                s += ["LOADBASIS h3 %s %s" % (cs, rs), "GETBASIS h3", "WRITEBASIS h3 l%d.bas OWN" % k, "READBASIS h3 l%d.bas" % k, "GETBASIS h3"]
+            hist = (P2, i2 is not None, b2, lb)
         cases.append((cid, "\n".join(s) + "\n"))
-        meta[cid] = (P, bases, bad, vb)
+        meta[cid] = (P, bases, bad, vb, hist)
     scripts = dict(cases)
     M, outs, crashes, _ = run_io_cases(cases, tag="C14", per_case_timeout=300)
     if crashes:
         for c in crashes[:3]:
             ck.violation("crash_%s.txt" % c[0], scripts[c[0]], "harness died (rc %s) while writing/reading basis files" % c[1], match=dict(kind="crash"))
     q = []
-    for cid, (P, bases, bad, vb) in meta.items():
+    for cid, (P, bases, bad, vb, hist) in meta.items():
         free = "".join("1" if is_free(c) else "0" for c in P["cols"])
         for k, (cs, rs) in enumerate(bases):
             q.append("Q %s.%d basis %s %s %s" % (cid, k, cs, free, rs))
     ans = run_model_par("drv_io", q)
-    nb = nown = nopt = 0
+    nb = nown = nopt = nhist = nload = 0
     own_hist = {}
-    for cid, (P, bases, bad, vb) in meta.items():
+    for cid, (P, bases, bad, vb, hist) in meta.items():
         if cid not in outs or cid in [c[0] for c in crashes]:
             continue
         o = RtOut(outs[cid])
@@ -152,6 +169,7 @@ def main():
         exp_c = "".join(("3" if fr else "0") if s in "03" else s for s, fr in zip(cs, free))
         if rd[0][1] != "OK" or rd[0][2:4] != [exp_c, rs]:
             ck.violation("ownfile_%s.txt" % cid, scripts[cid], "the file written from the problem's own basis %s %s reads back as %s" % (cs, rs, rd[0][1:4]), match=dict(kind="roundtrip"))
+        v1 = v2 = ()
         for k, (cs, rs) in enumerate(vb):
             v1, v2 = o.next("BOPT"), o.next("BOPT")
             if v1 is None or v2 is None:
@@ -160,16 +178,56 @@ def main():
             if v1[0][1:] != v2[0][1:]:
                 ck.violation("verdict_%s_%d.txt" % (cid, k), scripts[cid], "QSexact_basis_optimalstatus differs between basis %s %s and the basis read back from its file: %s vs %s" % (cs, rs, v1[0][1:], v2[0][1:]),
                              match=dict(kind="verdict"))
+        if hist is None or v1 is None or v2 is None:
+            continue
+        P2, delrow, b2, lb = hist
+        o.next("LOAD")
+        eds = [o.next("EDIT")] + ([o.next("EDIT")] if delrow else [])
+        free2 = [is_free(c) for c in P2["cols"]]
+        edits_ok = all(e and e[0][1] == "0" for e in eds)
+        for k, (cs, rs) in enumerate(b2):
+            w, rd = o.next("WRITEBASIS"), o.next("READBASIS")
+            if not edits_ok or w is None or rd is None:
+                continue
+            nhist += 1
+            ck.count((problem_text(P2), "after-delete", cs, rs))
+            exp_c = "".join(("3" if fr else "0") if st in "03" else st for st, fr in zip(cs, free2))
+            got = rd[0][2:4] if rd[0][1] == "OK" else ["FAIL"]
+            if w[0][1] != "0" or got != [exp_c or "-", rs or "-"]:
+                ck.violation("afterdelete_%s_%d.txt" % (cid, k), scripts[cid] + "\n# on h2 (after the deletes) basis %s %s came back as %s (write rv %s)\n" % (cs, rs, got, w[0][1]),
+                             "after deleting a non-last column%s, basis %s %s of the remaining problem came back as %s from its own file" % (" and a row" if delrow else "", cs, rs, got),
+                             match=dict(kind="roundtrip-after-delete"))
+        o.next("LOAD")
+        o3, g3 = o.next("OPT"), o.next("BASIS")
+        for k, (cs, rs) in enumerate(lb):
+            ld, gb, w, rd, ga = o.next("LOADBASIS"), o.next("BASIS"), o.next("WRITEBASIS"), o.next("READBASIS"), o.next("BASIS")
+            if ga is None or ld[0][1] != "0" or gb[0][1] == "-":
+                continue
+            nload += 1
+            ck.count((problem_text(P), "loaded-own", cs, rs))
+            cur = gb[0][1:3]
+            exp_c = "".join(("3" if fr else "0") if st in "03" else st for st, fr in zip(cur[0], free))
+            got = rd[0][2:4] if rd[0][1] == "OK" else ["FAIL"]
+            if w[0][1] != "0" or got != [exp_c, cur[1]]:
+                ck.violation("loadedown_%s_%d.txt" % (cid, k), scripts[cid] + "\n# h3: after LOADBASIS %s %s mpq_QSget_basis says %s, the file written by mpq_QSwrite_basis(p, NULL) reads back as %s\n" % (cs, rs, cur, got),
+                             "after solving and then loading basis %s %s, mpq_QSwrite_basis(p, NULL, file) does not write the problem's current basis %s: the file reads back as %s" % (cs, rs, cur, got),
+                             match=dict(kind="write-own-basis-stale"))
+            elif ga[0][1:3] != cur:
+                ck.violation("loadedown_consumed_%s_%d.txt" % (cid, k), scripts[cid], "mpq_QSwrite_basis(p, NULL, file) changed the loaded basis %s into %s" % (cur, ga[0][1:3]),
+                             match=dict(kind="write-own-basis-consumed"))
     if not pr["ok"]:
         ck.violation("proof.txt", pr["log"], "proof obligation(s) of Properties_C14.v no longer check: %s" % pr["failed"], no_input=not ck.violations)
     ck.cov["bases_compared"] = nb
     ck.cov["exact_verdicts_compared"] = nopt
+    ck.cov["roundtrips_after_delete"] = nhist
+    ck.cov["loaded_then_written_own"] = nload
     ck.cov["own_basis_cases"] = dict(total=nown, **own_hist)
     ck.cov["rule"] = ("small LPs (1-4 columns, 1-3 rows, plain names, ranged rows and free columns forced in every second one) x a shuffled sample of ALL status "
                       "assignments over {0,1,2,3}^n x {0,1,2}^m with as many basic entries as rows (incl. status 3 on non-free columns, rows at upper): "
                       "mpq_QSwrite_basis(p, B, file) bytes vs the extracted write_basis text; mpq_QSread_basis vs the extracted read_basis and vs the statement of "
                       "basis_roundtrip; bases with a wrong basic count must be refused; then the problem's own basis: solve, get_basis, write_basis(p, NULL), "
-                      "get_basis, solve again, read the file; non-trivial = every basis; distinct by problem + basis")
+                      "get_basis, solve again, read the file; histories: the round trip on the problem left after deleting a non-last column (and a row), "
+                      "and solve / load another basis / write_basis(p, NULL) / read back = get_basis; non-trivial = every basis; distinct by problem + basis")
     ck.cov["not_covered"] = "the byte layout of a line and the NAME/ENDATA frame are compared, not proved; names needing repair are outside the property"
     ck.assumptions = ["Coq kernel; extraction; OCaml", "harness h_io.c", "status characters 0123 map to Lo Ba Up Fr"]
     cleanup_scratch()
